@@ -234,20 +234,44 @@ def norm_table(model_path):
     return {n: pyside.norm(n) for n in sorted(names)}
 
 
+CHUNK_BYTES = 8 * 1024 * 1024
+
+
 def main(argv):
+    """states file -> trace chunk files <out>.<n> (bounded size, so that TLC's JsonDeserialize
+    never sees a huge document); prints one JSON line describing the chunks."""
     states_path, out_path, model_path = argv[1], argv[2], argv[3]
     from .common import tagged_lines
     r = Runner()
-    sessions = []
-    n = 0
+    table = norm_table(model_path)
+    chunks = []
+    cur, size, n = [], 0, 0
+    by_kind = {}
+
+    def flush():
+        nonlocal cur, size
+        if not cur:
+            return
+        path = "%s.%d" % (out_path, len(chunks))
+        with open(path, "w", encoding="utf-8") as f:
+            f.write('{"norm": %s, "sessions": [%s]}' % (json.dumps(table), ",".join(cur)))
+        chunks.append({"path": path, "sessions": len(cur), "events": sum(c.count('"e": "') for c in cur)})
+        cur, size = [], 0
+
     for st in tagged_lines(states_path, "@S", is_path=True):
         for s in r.sessions_for(st):
             n += 1
-            s["sid"] = n
-            sessions.append(s)
-    with open(out_path, "w", encoding="utf-8") as f:
-        json.dump({"norm": norm_table(model_path), "sessions": sessions}, f, ensure_ascii=False)
-    print(json.dumps({"sessions": len(sessions), "events": sum(len(s["ev"]) for s in sessions)}))
+            s["sid"] = len(cur) + 1
+            by_kind[s["sk"]] = by_kind.get(s["sk"], 0) + 1
+            nev = len(s["ev"])
+            txt = json.dumps(s, ensure_ascii=False)
+            cur.append(txt)
+            chunks_ev = nev
+            size += len(txt)
+            if size >= CHUNK_BYTES:
+                flush()
+    flush()
+    print(json.dumps({"chunks": chunks, "by_kind": by_kind}))
 
 
 if __name__ == "__main__":
